@@ -48,6 +48,28 @@ theorem linebuffer_hides_byte (cfg : Config) (b : Nat)
     | inl x => exact Or.inl x
     | inr x => exact Or.inr (List.mem_of_mem_take x)
 
+/-- **A reused buffer starts clean.**  `LineBufferReader::new` clears the buffer it is handed; from
+that cleared state — whatever the buffer held before (another file's data, a recorded binary
+offset, a grown vector) — the promises hold for the next reader exactly as for a fresh buffer:
+window of the new input, binary byte never visible, a recorded offset is the first occurrence in
+the NEW input. -/
+theorem linebuffer_reused (cfg : Config) (b : Nat)
+    (hb : cfg.binary = .quit b ∨ (cfg.binary = .convert b ∧ b ≠ cfg.lineterm))
+    (s0 : LB) (hc : s0.cfg = cfg) (inp : Bytes) (script : List Step) (ops : List Op) :
+    (run s0.clear ⟨inp, script, 0⟩ ops).1.buffer =
+        window (view cfg inp) (run s0.clear ⟨inp, script, 0⟩ ops).1.abs
+          (run s0.clear ⟨inp, script, 0⟩ ops).1.buffer.length ∧
+    b ∉ (run s0.clear ⟨inp, script, 0⟩ ops).1.buffer ∧
+    (∀ o, (run s0.clear ⟨inp, script, 0⟩ ops).1.binOff = some o → findByte b inp = some o) ∧
+    s0.clear.binOff = none := by
+  obtain ⟨a, m, rest, h⟩ := run_inv cfg inp ops _ _ _ _ _ (Inv.clear cfg s0 hc ⟨inp, script, 0⟩)
+  refine ⟨h.window, ?_, fun o ho => h.binOff_first b o hb ho, rfl⟩
+  intro hm
+  have hm' := mem_buffer_of hm
+  cases hb with
+  | inl hq => exact h.hides_quit b hq hm'
+  | inr hcv => exact h.hides_convert b hcv.1 hcv.2 hm'
+
 /-- `Quit`: once the byte was seen `fill` reads nothing more and changes nothing ("acts as if it
 reached EOF"). -/
 theorem quit_stops_reading (s : LB) (r : Reader) (b : Nat) (hb : s.cfg.binary = .quit b)
